@@ -74,7 +74,11 @@ func vpWantMember(obj []byte, k string, v any, label string) {
 
 // vpExtraValue draws a nested value of every scalar kind.
 func vpExtraValue() any {
-	switch vpInt(0, 5) {
+	switch vpInt(0, 7) {
+	case 6:
+		return []any{} // an empty list stays an empty list (not null)
+	case 7:
+		return vpMapOf() // an empty mapping stays an empty mapping
 	case 0:
 		return vpStrUpTo(1, "x-z")
 	case 1:
